@@ -6,8 +6,6 @@
 package vsync
 
 import (
-	"fmt"
-
 	"github.com/miekg/dns/verifshim/vsched"
 )
 
@@ -94,17 +92,38 @@ func (w *WaitGroup) Wait() {
 	vsched.Acquire(w)
 }
 
-type Once struct{ done bool }
+type Once struct{ done, running bool }
 
+// Do: like sync.Once, a second caller does not return before the first call of f has returned.
 func (o *Once) Do(f func()) {
-	vsched.Point("once.Do", nil)
+	vsched.Point("once.Do", func() bool { return !o.running })
 	if !o.done {
-		o.done = true
+		o.done, o.running = true, true
+		defer func() {
+			o.running = false
+			vsched.Release(o)
+		}()
 		f()
-		vsched.Release(o)
 	} else {
 		vsched.Acquire(o)
 	}
+}
+
+// OnceFunc, OnceValue, OnceValues as in package sync (panics are not re-raised on later calls).
+func OnceFunc(f func()) func() {
+	var o Once
+	return func() { o.Do(f) }
+}
+func OnceValue[T any](f func() T) func() T {
+	var o Once
+	var v T
+	return func() T { o.Do(func() { v = f() }); return v }
+}
+func OnceValues[T1, T2 any](f func() (T1, T2)) func() (T1, T2) {
+	var o Once
+	var v1 T1
+	var v2 T2
+	return func() (T1, T2) { o.Do(func() { v1, v2 = f() }); return v1, v2 }
 }
 
 // Pool is LIFO and deterministic so that buffers are recycled as early as possible.
@@ -135,10 +154,165 @@ func (p *Pool) Put(x any) {
 	p.items = append(p.items, x)
 }
 
-// Cond exists so that references compile; waiting on it is not supported under the scheduler.
-type Cond struct{ L Locker }
+// Cond: Wait releases L, blocks until a later Signal/Broadcast, and re-acquires L. Signal wakes the longest
+// waiter (sync.Cond does not promise which; callers must re-check their condition anyway).
+type Cond struct {
+	L       Locker
+	waiters []*condWaiter
+}
+type condWaiter struct{ woken bool }
 
 func NewCond(l Locker) *Cond { return &Cond{L: l} }
-func (c *Cond) Broadcast()   { vsched.Point("cond.Broadcast", nil) }
-func (c *Cond) Signal()      { vsched.Point("cond.Signal", nil) }
-func (c *Cond) Wait()        { panic(fmt.Sprint("vsync: Cond.Wait is not supported under the controlled scheduler")) }
+func (c *Cond) Broadcast() {
+	vsched.Point("cond.Broadcast", nil)
+	vsched.Release(c)
+	for _, w := range c.waiters {
+		w.woken = true
+	}
+	c.waiters = nil
+}
+func (c *Cond) Signal() {
+	vsched.Point("cond.Signal", nil)
+	vsched.Release(c)
+	if len(c.waiters) > 0 {
+		c.waiters[0].woken = true
+		c.waiters = c.waiters[1:]
+	}
+}
+func (c *Cond) Wait() {
+	w := &condWaiter{}
+	c.waiters = append(c.waiters, w)
+	c.L.Unlock()
+	vsched.Point("cond.Wait", func() bool { return w.woken })
+	vsched.Acquire(c)
+	c.L.Lock()
+}
+
+// TryLock variants.
+func (m *Mutex) TryLock() bool {
+	vsched.Point("TryLock", nil)
+	if m.held {
+		return false
+	}
+	m.held = true
+	vsched.Acquire(m)
+	return true
+}
+func (m *RWMutex) TryLock() bool {
+	vsched.Point("TryLock", nil)
+	if m.w || m.r > 0 {
+		return false
+	}
+	m.w = true
+	vsched.Acquire(m)
+	vsched.Acquire(rkey{m})
+	return true
+}
+func (m *RWMutex) TryRLock() bool {
+	vsched.Point("TryRLock", nil)
+	if m.w {
+		return false
+	}
+	m.r++
+	vsched.Acquire(m)
+	return true
+}
+
+// Go (Go 1.25): f runs in a new scheduler thread, counted by the group.
+func (w *WaitGroup) Go(f func()) {
+	w.Add(1)
+	vsched.Go(func() {
+		defer w.Done()
+		f()
+	})
+}
+
+// Map: every operation is one scheduling point and atomic, as in sync.Map; Range works on a snapshot in
+// insertion order (sync.Map promises no order; a deterministic one keeps schedules replayable).
+type Map struct {
+	keys []any
+	m    map[any]any
+}
+
+func (m *Map) pt(op string) {
+	vsched.Point("map."+op, nil)
+	vsched.Acquire(m)
+	vsched.Release(m)
+	if m.m == nil {
+		m.m = map[any]any{}
+	}
+}
+func (m *Map) drop(k any) {
+	delete(m.m, k)
+	for i, x := range m.keys {
+		if x == k {
+			m.keys = append(m.keys[:i:i], m.keys[i+1:]...)
+			break
+		}
+	}
+}
+func (m *Map) Load(k any) (any, bool) { m.pt("Load"); v, ok := m.m[k]; return v, ok }
+func (m *Map) Store(k, v any) {
+	m.pt("Store")
+	if _, ok := m.m[k]; !ok {
+		m.keys = append(m.keys, k)
+	}
+	m.m[k] = v
+}
+func (m *Map) LoadOrStore(k, v any) (any, bool) {
+	m.pt("LoadOrStore")
+	if old, ok := m.m[k]; ok {
+		return old, true
+	}
+	m.keys = append(m.keys, k)
+	m.m[k] = v
+	return v, false
+}
+func (m *Map) LoadAndDelete(k any) (any, bool) {
+	m.pt("LoadAndDelete")
+	v, ok := m.m[k]
+	if ok {
+		m.drop(k)
+	}
+	return v, ok
+}
+func (m *Map) Delete(k any) { m.LoadAndDelete(k) }
+func (m *Map) Swap(k, v any) (any, bool) {
+	m.pt("Swap")
+	old, ok := m.m[k]
+	if !ok {
+		m.keys = append(m.keys, k)
+	}
+	m.m[k] = v
+	return old, ok
+}
+func (m *Map) CompareAndSwap(k, old, nw any) bool {
+	m.pt("CompareAndSwap")
+	if cur, ok := m.m[k]; ok && cur == old {
+		m.m[k] = nw
+		return true
+	}
+	return false
+}
+func (m *Map) CompareAndDelete(k, old any) bool {
+	m.pt("CompareAndDelete")
+	if cur, ok := m.m[k]; ok && cur == old {
+		m.drop(k)
+		return true
+	}
+	return false
+}
+func (m *Map) Range(f func(k, v any) bool) {
+	m.pt("Range")
+	keys := append([]any(nil), m.keys...)
+	for _, k := range keys {
+		v, ok := m.m[k]
+		if !ok {
+			continue
+		}
+		if !f(k, v) {
+			return
+		}
+	}
+}
+func (m *Map) Clear() { m.pt("Clear"); m.keys, m.m = nil, map[any]any{} }
